@@ -382,8 +382,14 @@ pub fn check_c12(c: &ContCase, acc: &mut Acc, record: bool) -> Verdict {
         }
     }
     let expected = as_container_val(c.dst, &written);
-    match vcat::decode(&dty, &bytes) {
+    let (got, rest) = vcat::decode_with_rest(&dty, &bytes);
+    match got {
         Ok(v) => {
+            // whatever the container and the size form, the target must consume the whole encoding (else data that
+            // follows the sequence would be read from the wrong offset)
+            if !rest.is_empty() {
+                return Verdict::Fail(format!("{} read from the bytes of {} ({:?}) left {} bytes unread: {} (bytes {})", dty.render(), sty.render(), c.form, rest.len(), hex(&rest), hex(&bytes)));
+            }
             // ordered targets: canon keeps order, so this is sequence equality; unordered targets: set / map equality
             if canon(&dty, &v) == canon(&dty, &expected) {
                 Verdict::Pass
